@@ -232,7 +232,7 @@ func compareWalk(what string, got []walked, want []*types.Stat) (string, string)
 	return "", ""
 }
 
-func judgeC09(c c09Case) (string, string) {
+func judgeC09Raw(c c09Case) (string, string) {
 	dir := scratch.Dir("walk")
 	defer scratch.Remove(dir)
 	if err := fsmodel.Materialize(c.Tree, dir); err != nil {
@@ -684,4 +684,14 @@ func replayC09(raw json.RawMessage) string {
 		return ""
 	}
 	return k + ": " + m
+}
+
+// judgeC09 is judgeC09Raw with a panic of the code under test turned into a verdict (never a crash of the check).
+func judgeC09(c c09Case) (k, m string) {
+	defer func() {
+		if r := recover(); r != nil {
+			k, m = "panic", fmt.Sprintf("the code under test panicked: %v", r)
+		}
+	}()
+	return judgeC09Raw(c)
 }
